@@ -52,6 +52,12 @@ class Spec:
     ignore_calls: tuple[str, ...] = ('log.',)
     methods: dict[str, 'Translated'] = field(default_factory=dict)  # self.<m>(...) already translated
     uses_now: bool = True
+    pure: bool = False  # no state, cannot raise: emitted as a plain Lean function (usable inside expressions)
+    kind: str = 'method'  # 'method' (first parameter self) | 'function' (a plain or nested function)
+    opaque: dict[str, tuple[str, str]] = field(default_factory=dict)  # source text of an expression → (parameter, type): an input of the kernel (a call into the OS, a subprocess …)
+    skip_prefixes: tuple[str, ...] = ()  # statements whose source starts with one of these have no effect on what is modelled (listed per kernel, trusted)
+    pure_calls: dict[str, 'Translated'] = field(default_factory=dict)  # f(args): an already translated function without state which cannot raise
+    effect_calls: dict[str, str] = field(default_factory=dict)  # f(e) as a statement ≡ self.<field> = e: the last argument f was called with
 
 
 @dataclass
@@ -74,8 +80,8 @@ def _dotted(n: ast.AST) -> str | None:
 
 
 LEAN_T = {'int': 'Int', 'bool': 'Bool'}
-NONE_VAL = {'bool': 'false', 'int': '0', 'none': '()'}
-RET_T = {'bool': 'Bool', 'int': 'Int', 'none': 'Unit'}
+NONE_VAL = {'bool': 'false', 'int': '0', 'none': '()', 'int*int': '(0, 0)'}
+RET_T = {'bool': 'Bool', 'int': 'Int', 'none': 'Unit', 'int*int': '(Int × Int)'}
 
 
 class _Tr:
@@ -87,6 +93,31 @@ class _Tr:
     # -- expressions: returns (lean, type) ---------------------------------------------------------
     def expr(self, e: ast.AST, env: dict[str, str]) -> tuple[str, str]:
         sp = self.spec
+        if sp.opaque:
+            src = ast.unparse(e)
+            if src in sp.opaque:
+                name, t = sp.opaque[src]
+                return f'x_{name}', t
+        if isinstance(e, ast.Call) and isinstance(e.func, ast.Name) and e.func.id in sp.pure_calls and e.func.id not in env:
+            callee = sp.pure_calls[e.func.id]
+            if e.keywords or len(e.args) != len(callee.spec.params):
+                raise Unsupported(f'call {ast.unparse(e)}')
+            args = []
+            for a, (pn, pt) in zip(e.args, callee.spec.params.items()):
+                v, t = self.expr(a, env)
+                if t != pt:
+                    raise Unsupported(f'argument {pn} of {ast.unparse(e)}: {t} for {pt}')
+                args.append(v)
+            # the callee's attribute parameters and opaque inputs are the caller's, by name
+            for (o, attr), t in callee.spec.attr_params.items():
+                if sp.attr_params.get((o, attr)) != t:
+                    raise Unsupported(f'{o}.{attr} is not declared for the caller of {e.func.id}')
+                args.append(f'p_{o}_{attr}')
+            for _src, (name, t) in callee.spec.opaque.items():
+                if (name, t) not in sp.opaque.values():
+                    raise Unsupported(f'opaque input {name} is not declared for the caller of {e.func.id}')
+                args.append(f'x_{name}')
+            return '(' + ' '.join([callee.name] + args) + ')', callee.ret
         if isinstance(e, ast.Constant):
             if isinstance(e.value, bool):
                 return ('true' if e.value else 'false'), 'bool'
@@ -188,6 +219,8 @@ class _Tr:
 
     def ret(self, val: str | None) -> str:
         v = val if val is not None else NONE_VAL[self.spec.ret]
+        if self.spec.pure:
+            return v
         return f'PyRes.ret {v} {self.state()}'
 
     def block(self, stmts: list[ast.stmt], rest: list[ast.stmt], env: dict[str, str], ind: int) -> str:
@@ -198,6 +231,10 @@ class _Tr:
             return pad + self.ret(None)
         s, tail = todo[0], todo[1:]
         sp = self.spec
+        if sp.skip_prefixes:
+            src = ast.unparse(s)
+            if any(src.startswith(p) for p in sp.skip_prefixes):
+                return self.block(tail, [], env, ind)
         if isinstance(s, ast.Expr) and isinstance(s.value, ast.Constant) and isinstance(s.value.value, str):
             return self.block(tail, [], env, ind)  # docstring
         if isinstance(s, ast.Pass):
@@ -207,6 +244,11 @@ class _Tr:
                 return pad + self.ret(None)
             if isinstance(s.value, ast.Constant) and s.value.value is None:
                 return pad + self.ret(None)
+            if isinstance(s.value, ast.Tuple) and sp.ret == 'int*int' and len(s.value.elts) == 2:
+                (a, ta), (b, tb) = (self.expr(x, env) for x in s.value.elts)
+                if ta != 'int' or tb != 'int':
+                    raise Unsupported(f'{self.fname}: returns ({ta}, {tb}), declared int*int')
+                return pad + self.ret(f'({a}, {b})')
             v, t = self.expr(s.value, env)
             if sp.ret == 'none':
                 raise Unsupported(f'{self.fname}: returns a value but is declared to return None')
@@ -217,6 +259,8 @@ class _Tr:
                     raise Unsupported(f'{self.fname}: returns {t}, declared {sp.ret}')
             return pad + self.ret(v)
         if isinstance(s, ast.Raise):
+            if sp.pure:
+                raise Unsupported(f'{self.fname}: declared pure but raises')
             c = s.exc
             if isinstance(c, ast.Call) and _dotted(c.func) == 'Notify' and len(c.args) >= 2:
                 a, ta = self.expr(c.args[0], env)
@@ -224,6 +268,8 @@ class _Tr:
                 if ta != 'int' or tb != 'int':
                     raise Unsupported('Notify code/subcode not int')
                 return pad + f'PyRes.raise {a} {b}'
+            if isinstance(c, ast.Call) and _dotted(c.func) in ('ValueError', 'RuntimeError', 'TypeError', 'AssertionError'):
+                return pad + 'PyRes.raise (-1) (-1)'  # an exception which is not a Notify
             raise Unsupported(f'raise {ast.unparse(s)}')
         if isinstance(s, ast.Expr):
             if isinstance(s.value, ast.Call):
@@ -233,6 +279,12 @@ class _Tr:
                 m = self.self_call(s.value)
                 if m:
                     return self.bind(m, s.value, None, tail, env, ind)
+                if isinstance(s.value.func, ast.Name) and s.value.func.id in sp.effect_calls and len(s.value.args) == 1 and not s.value.keywords:
+                    fld = sp.effect_calls[s.value.func.id]
+                    v, t = self.expr(s.value.args[0], env)
+                    if sp.fields.get(fld) != t:
+                        raise Unsupported(f'effect {ast.unparse(s)}: field {fld} is not a {t}')
+                    return pad + f'let s_{fld} : {LEAN_T[t]} := {v}\n' + self.block(tail, [], env, ind)
             raise Unsupported(f'statement {ast.unparse(s)}')
         if isinstance(s, (ast.Assign, ast.AnnAssign)):
             targets = s.targets if isinstance(s, ast.Assign) else [s.target]
@@ -345,19 +397,32 @@ def lean_state_structure(cls: str, fields: dict[str, str]) -> str:
     return '\n'.join(out)
 
 
-def translate(fn: Any, spec: Spec, lean_name: str | None = None) -> Translated:
+def translate(fn: Any, spec: Spec, lean_name: str | None = None, nested: str | None = None) -> Translated:
+    """`nested`: translate the function of that name defined inside `fn` (a closure of `fn`)."""
     src = textwrap.dedent(inspect.getsource(fn))
     tree = ast.parse(src)
     fdef = tree.body[0]
     if not isinstance(fdef, (ast.FunctionDef, ast.AsyncFunctionDef)):
         raise Unsupported('not a function')
+    if nested is not None:
+        inner = [n for n in ast.walk(fdef) if isinstance(n, ast.FunctionDef) and n.name == nested]
+        if len(inner) != 1:
+            raise Unsupported(f'{len(inner)} functions named {nested} inside {fdef.name}')
+        fdef = inner[0]
+        src = textwrap.dedent('\n'.join(src.splitlines()[fdef.lineno - 1 : fdef.end_lineno]))
     name = lean_name or f'{spec.cls}.{fdef.name}'
     # parameters: self, declared plain params, object params (those with attr_params), defaults ignored
     declared = [a.arg for a in fdef.args.args]
-    if not declared or declared[0] != 'self':
-        raise Unsupported('only methods are translated')
+    if spec.kind == 'method':
+        if not declared or declared[0] != 'self':
+            raise Unsupported('not a method')
+        rest = declared[1:]
+    else:
+        if declared and declared[0] == 'self':
+            raise Unsupported('a method, declared as a function')
+        rest = declared
     objs = sorted({o for (o, _a) in spec.attr_params})
-    for a in declared[1:]:
+    for a in rest:
         if a not in spec.params and a not in objs:
             raise Unsupported(f'parameter {a} of {fdef.name} is not declared in the spec')
     tr = _Tr(spec, fdef.name)
@@ -367,12 +432,19 @@ def translate(fn: Any, spec: Spec, lean_name: str | None = None) -> Translated:
     spec.params = {p: t for p, t in spec.params.items() if p in declared}
     for (o, a), t in spec.attr_params.items():
         params.append((f'p_{o}_{a}', LEAN_T[t]))
+    for _src, (nm, t) in spec.opaque.items():
+        params.append((f'x_{nm}', LEAN_T[t]))
     if spec.uses_now:
         params.append(('now', 'Int'))
     sig = ' '.join(f'({n} : {t})' for n, t in params)
     doc = '/-- translated from:\n' + '\n'.join('    ' + l for l in src.rstrip().splitlines()) + '\n-/'
     doc = doc.replace('-/\n-/', '-/')
-    lean = f'{doc}\ndef {name} (st : {spec.cls}St) {sig} : PyRes {spec.cls}St {RET_T[spec.ret]} :=\n{opening}{body}\n'
+    if spec.pure:
+        if spec.fields:
+            raise Unsupported('a pure function has no state')
+        lean = f'{doc}\ndef {name} {sig} : {RET_T[spec.ret]} :=\n{body}\n'
+    else:
+        lean = f'{doc}\ndef {name} (st : {spec.cls}St) {sig} : PyRes {spec.cls}St {RET_T[spec.ret]} :=\n{opening}{body}\n'
     return Translated(name=name, lean=lean, params=params, ret=spec.ret, spec=spec, source=src)
 
 
